@@ -11,6 +11,8 @@
 EXTENDS ConstExpr
 
 CONSTANTS Leaves,      \* integer leaf values
+          ULeaves,     \* values of unsigned-suffixed literal leaves (0..INT_MAX)
+          Bigs,        \* spellings of literal leaves that do not fit in int
           UnOps,       \* subset of {"+", "-", "~", "!"}
           Casts,       \* subset of {"int", "bool", "char", "short"}
           BinOps,      \* subset of AllBinOps
@@ -21,7 +23,7 @@ CONSTANTS Leaves,      \* integer leaf values
 VARIABLES prog, stk
 vars == <<prog, stk>>
 
-Entry(t, r, h) == [t |-> t, d |-> r.d, v |-> r.v, h |-> h]
+Entry(t, r, h) == [t |-> t, d |-> r.d, v |-> r.v, h |-> h, u |-> Typ(t)]
 Res(e) == [d |-> e.d, v |-> e.v]
 Max(a, b) == IF a > b THEN a ELSE b
 N == Len(stk)
@@ -38,9 +40,19 @@ PushLeaf(v) ==
   /\ stk' = Append(stk, Entry(<<"lit", v>>, Ok(v), 0))
   /\ prog' = Append(prog, <<"lit", v>>)
 
+PushU(v) ==
+  /\ Room(N + 1)
+  /\ stk' = Append(stk, Entry(<<"ulit", v>>, Ok(v), 0))
+  /\ prog' = Append(prog, <<"ulit", v>>)
+
+PushBig(s) ==
+  /\ Room(N + 1)
+  /\ stk' = Append(stk, Entry(<<"big", s>>, Big, 0))
+  /\ prog' = Append(prog, <<"big", s>>)
+
 ApplyUn(op) ==
   /\ N >= 1 /\ Top(0).h < MaxDepth /\ Room(N)
-  /\ stk' = Append(Pop(1), Entry(<<"un", op, Top(0).t>>, UnR(op, Res(Top(0))), Top(0).h + 1))
+  /\ stk' = Append(Pop(1), Entry(<<"un", op, Top(0).t>>, UnR(op, Res(Top(0)), Top(0).u), Top(0).h + 1))
   /\ prog' = Append(prog, <<"un", op>>)
 
 ApplyCast(ty) ==
@@ -51,19 +63,21 @@ ApplyCast(ty) ==
 ApplyBin(op) ==
   /\ N >= 2 /\ Max(Top(0).h, Top(1).h) < MaxDepth /\ Room(N - 1)
   /\ stk' = Append(Pop(2), Entry(<<"bin", op, Top(1).t, Top(0).t>>,
-                                 BinR(op, Res(Top(1)), Res(Top(0))),
+                                 BinR(op, Res(Top(1)), Res(Top(0)), Top(1).u, Top(0).u),
                                  Max(Top(0).h, Top(1).h) + 1))
   /\ prog' = Append(prog, <<"bin", op>>)
 
 ApplyCond ==
   /\ UseCond /\ N >= 3 /\ Max(Top(0).h, Max(Top(1).h, Top(2).h)) < MaxDepth /\ Room(N - 2)
   /\ stk' = Append(Pop(3), Entry(<<"cond", Top(2).t, Top(1).t, Top(0).t>>,
-                                 CondR(Res(Top(2)), Res(Top(1)), Res(Top(0))),
+                                 CondR(Res(Top(2)), Res(Top(1)), Res(Top(0)), Top(1).u, Top(0).u),
                                  Max(Top(0).h, Max(Top(1).h, Top(2).h)) + 1))
   /\ prog' = Append(prog, <<"cond">>)
 
 Next ==
   \/ \E v \in Leaves : PushLeaf(v)
+  \/ \E v \in ULeaves : PushU(v)
+  \/ \E b \in Bigs : PushBig(b)
   \/ \E op \in UnOps : ApplyUn(op)
   \/ \E ty \in Casts : ApplyCast(ty)
   \/ \E op \in BinOps : ApplyBin(op)
@@ -80,6 +94,7 @@ EvalTotal == \A i \in 1..N : Ev(stk[i].t) = Res(stk[i])
 
 TopBin(op) == N >= 1 /\ Top(0).t[1] = "bin" /\ Top(0).t[2] = op
              /\ Ev(Top(0).t[3]).d = "ok" /\ Ev(Top(0).t[4]).d = "ok"
+             /\ ~Typ(Top(0).t[3]) /\ ~Typ(Top(0).t[4])
 L == Ev(Top(0).t[3]).v
 R == Ev(Top(0).t[4]).v
 
@@ -125,6 +140,12 @@ AddLaw ==
 \* the minimal rendering never has more tokens than the full one, and both keep the leaves in order
 Punct == AllBinOps \cup {"(", ")", "?", ":", "~", "!", "int", "bool", "char", "short"}
 Leaf(s) == SelectSeq(s, LAMBDA x : x \notin Punct)
+\* a value computed in unsigned arithmetic is an int only when nothing wrapped: it is never negative;
+\* the static type of every entry is the one carried
+TypeLaw ==
+  \A i \in 1..N : /\ stk[i].u = Typ(stk[i].t)
+                  /\ (stk[i].u /\ stk[i].d = "ok" => stk[i].v >= 0)
+
 RenderLaw ==
   \A i \in 1..N : /\ Len(Toks(stk[i].t)) <= Len(FullToks(stk[i].t))
                   /\ Leaf(Toks(stk[i].t)) = Leaf(FullToks(stk[i].t))
